@@ -48,6 +48,14 @@ def opCliMs (args : List SExp) : Option OpResult := do
   | _ => none
 
 def respOf : SExp → Option Resp
+  | .list [.atom "resp", n, st, .list stats, e, d] => do
+    let n ← n.nat?
+    let st ← (match st with | .atom "nil" => some none | x => do pure (some (← x.nat?)))
+    let stats ← stats.mapM (fun s => match s with
+      | .list [c, .list names] => do pure (⟨← c.nat?, ← names.mapM SExp.str?⟩ : PropStat)
+      | _ => none)
+    let hrefs := (List.range n).map (fun i => if i = 0 then "/c/x" else s!"/c/x-{i}")
+    pure ⟨hrefs, st, stats, ← e.bool?, ← d.bool?⟩
   | .list [.atom "resp", n, st, .list stats] => do
     let n ← n.nat?
     let st ← (match st with | .atom "nil" => some none | x => do pure (some (← x.nat?)))
@@ -55,7 +63,7 @@ def respOf : SExp → Option Resp
       | .list [c, .list names] => do pure (⟨← c.nat?, ← names.mapM SExp.str?⟩ : PropStat)
       | _ => none)
     let hrefs := (List.range n).map (fun i => if i = 0 then "/c/x" else s!"/c/x-{i}")
-    pure ⟨hrefs, st, stats⟩
+    pure ⟨hrefs, st, stats, false, false⟩
   | _ => none
 
 /-- `cli.resp <resp> <name> => err <code|none> path <…> prop <…>` -/
@@ -64,7 +72,9 @@ def opCliResp (args : List SExp) : Option OpResult := do
   | [r, name] =>
     let r ← respOf r
     let name ← name.str?
-    let e := match respErr r with | none => "none" | some c => toString c
+    let e := match respErr r with
+      | none => "none"
+      | some c => s!"{c}" ++ (if r.hasError || r.hasDesc then (match respWrapped r with | .dav => ":dav" | .text => ":text" | .nothing => "") else "")
     let p := match respPath r with
       | .ok p => s!"ok {hexStr p}" | .http c p => s!"http {c} {hexStr p}" | .malformed => "malformed"
     let d := match decodeProp r name with | .value i => s!"value {i}" | .http c => s!"http {c}"
